@@ -146,7 +146,9 @@ pub trait ExpressionReducer {
 
     fn visit_assignment(&mut self, a: Assignment) -> Result<Assignment, LintErrorPos> {
         let (name, v) = a.into();
-        Ok(Assignment::new(name, self.visit_expression_pos(v)?))
+        // the left side can contain expressions too (array indices)
+        let mapped_name = self.visit_expression(name)?;
+        Ok(Assignment::new(mapped_name, self.visit_expression_pos(v)?))
     }
 
     fn visit_for_loop(&mut self, f: ForLoop) -> Result<ForLoop, LintErrorPos> {
